@@ -663,6 +663,9 @@ def run(run, model):
     run.try_rule(_c14.r14_14, model)
     from rules import c07 as _c07
     run.try_rule(_c07.r07_18, model)
+    # effect position keeps calls only and emits other forms as bare Go expression statements: a loop body is unit (shared with C03 R03.14)
+    from rules import c10 as _c10
+    run.try_rule(_c10.r10_16, model)
     from rules import c08
     run.try_rule(c08.r08_1, model)
     from rules import c07
